@@ -5477,6 +5477,8 @@ impl<'a, 'graph> Builder<'a, 'graph> {
     }
     self.state = PendingState::default();
     self.fill_pass_mode = FillPassMode::CacheBusting;
+    // the first pass may have been abandoned while visiting dynamic branches
+    self.in_dynamic_branch = self.was_dynamic_root;
 
     // boxed due to async recursion
     async move { self.build(roots, imports).await }.boxed_local()
